@@ -27,7 +27,7 @@ Record kspec := { k_ins : list (string * Z); k_outs : list string; k_fun : list 
 
 Definition zn (l : list Z) (i : nat) : Z := nth i l 0%Z.
 
-Definition kind_spec (k : nat) : kspec :=
+Definition kind_raw (k : nat) : kspec :=
   match k with
   | 0 => {| k_ins := [("x", 0%Z)]; k_outs := ["y"]; k_fun := fun a => [zn a 0 + 1]%Z |}
   | 1 => {| k_ins := [("x", 1%Z); ("y", 2%Z)]; k_outs := ["s"; "d"];
@@ -42,6 +42,23 @@ Definition kind_spec (k : nat) : kspec :=
   | 8 => {| k_ins := [("b", 1%Z)]; k_outs := ["_y"]; k_fun := fun a => [3 * zn a 0 + 4]%Z |}
   | _ => {| k_ins := []; k_outs := []; k_fun := fun _ => [] |}
   end.
+
+(* Channel values carry their Python type: a value is ONE number 3*z + tag with tag 0 = int,
+   1 = bool, 2 = float (only integer-valued floats occur).  bool and int operands give an int,
+   any float operand makes every result a float -- what +, -, * do in Python.  Equality of
+   values (dict == dict in the cache test) is Python's ==: the numbers, not the types. *)
+Definition enc (tag z : Z) : Z := (3 * z + tag)%Z.
+Definition dec_z (e : Z) : Z := (e / 3)%Z.
+Definition dec_tag (e : Z) : Z := (e mod 3)%Z.
+
+Definition lift_fun (f : list Z -> list Z) (args : list Z) : list Z :=
+  let tag := if existsb (fun e => Z.eqb (dec_tag e) 2) args then 2%Z else 0%Z in
+  map (enc tag) (f (map dec_z args)).
+
+Definition kind_spec (k : nat) : kspec :=
+  let r := kind_raw k in
+  {| k_ins := map (fun lv => (fst lv, enc 0 (snd lv))) (k_ins r); k_outs := k_outs r;
+     k_fun := lift_fun (k_fun r) |}.
 
 (* ---- state ------------------------------------------------------------------------------ *)
 Record child := { c_label : string; c_kind : nat;
@@ -223,6 +240,14 @@ Definition remove_child (st : wf) (label : string) : wf * res :=
       let ids := child_ids c in
       let cn := filter (fun p => negb (memn (fst p) ids || memn (snd p) ids)) (w_conns st) in
       (set_shelf (set_cache (set_conns (set_children st cs) cn) None) (c :: w_shelf st), ROk)
+  end.
+
+(* node.parent = None / node.parent = another_workflow for a current child: Lexical._set_parent
+   calls the old parent's remove_child, so the node leaves exactly as above *)
+Definition leave (st : wf) (label : string) : wf * res :=
+  match take_child label (w_children st) with
+  | None => (st, RExc NoRef)
+  | Some _ => remove_child st label
   end.
 
 (* wf.add_child(node, label=nl) for a node object removed earlier (found by its current label) *)
@@ -454,8 +479,8 @@ Definition execute (st : wf) : wf :=
   let fuel := S (List.length (w_children st)) in
   set_vals st (fold_left (exec_child fuel st) (w_children st) (w_vals st)).
 
-Definition optz_eqb (a b : option Z) : bool :=
-  match a, b with Some x, Some y => Z.eqb x y | None, None => true | _, _ => false end.
+Definition optz_eqb (a b : option Z) : bool :=      (* Python ==: False == 0 == 0.0 *)
+  match a, b with Some x, Some y => Z.eqb (dec_z x) (dec_z y) | None, None => true | _, _ => false end.
 
 (* dict == dict *)
 Definition dict_eqb (a b : list (string * option Z)) : bool :=
@@ -493,6 +518,15 @@ Fixpoint reaches (fuel : nat) (es : list (string * string)) (a b : string) : boo
 
 Definition cyclic (st : wf) : bool :=
   existsb (fun c => reaches (List.length (w_children st)) (edges st) (c_label c) (c_label c)) (w_children st).
+
+(* wf.set_input_values with keyword arguments kw: the first part of run, alone *)
+Definition set_inputs (st : wf) (kw : list (string * Z)) : wf * res :=
+  match build_io st DIn with
+  | None => (st, RExc TypeErr)
+  | Some p =>
+      if negb (forallb (fun kv => mems (fst kv) (map fst p)) kw) then (st, RExc ValueErr)
+      else (assign_all st p kw, ROk)
+  end.
 
 (* Workflow.run with keyword arguments kw, with use_cache on, on an acyclic graph of ready children:
    set_input_values (panel built: TypeError; unknown key: ValueError; then assignments),
@@ -540,7 +574,10 @@ Inductive op :=
 | OReplace (cur : string) (src : option string)
 | OMapSet (d : dir) (k : string) (v : option string)
 | OMapDel (d : dir) (k : string)
-| OMapUpdate (d : dir) (ps : list (string * option string)).
+| OMapUpdate (d : dir) (ps : list (string * option string))
+| OOrphan (label : string)
+| OMoveAway (label : string)
+| OSetInputs (kw : list (string * Z)).
 
 Definition step (st : wf) (o : op) : wf * res :=
   match o with
@@ -559,13 +596,19 @@ Definition step (st : wf) (o : op) : wf * res :=
   | OMapSet d k v => map_setitem st d k v
   | OMapDel d k => map_delitem st d k
   | OMapUpdate d ps => map_update st d ps
+  | OOrphan l => leave st l
+  | OMoveAway l => leave st l
+  | OSetInputs kw => set_inputs st kw
   end.
 
 Fixpoint run_ops (st : wf) (ops : list op) : wf :=
   match ops with [] => st | o :: r => run_ops (fst (step st o)) r end.
 
 (* ---- observations (the format harness/props/c15.py prints) --------------------------------- *)
-Definition ov (o : option Z) : obs := match o with Some z => OZ z | None => OS "ND" end.
+Definition tag_name (e : Z) : string :=
+  if Z.eqb (dec_tag e) 1 then "b" else if Z.eqb (dec_tag e) 2 then "f" else "i".
+Definition ov (o : option Z) : obs :=
+  match o with Some e => OL [OS (tag_name e); OZ (dec_z e)] | None => OS "ND" end.
 
 (* channel.connections as ids, in the channel's own order (newest first) *)
 Definition conns_of (st : wf) (d : dir) (id : nat) : list nat :=
